@@ -89,16 +89,22 @@ def run(rep, tier):
         reference.setdefault(oname, basic)
         oname = oname + " (" + how + ")"
         for fname, (Enc, parse) in parsers.items():
-            doc = parse(Enc(Doc, default_dialect=D).encode(value))
             exp = _drop_none(basic) if fname == "toml" else basic      # TOML has no null: its dialect omits None
             n += 1
+            try:
+                doc = parse(Enc(Doc, default_dialect=D).encode(value))
+            except Exception as e:  # noqa: BLE001
+                doc = ["exc", type(e).__name__, str(e)[:160]]
             if doc != exp:
                 rep.violation("codec-dialect-option", {"format": fname, "option": oname, "expected": _j(exp), "actual": _j(doc),
                                                        "replay_module": "harness.checks.c13_formats"})
         # dialects are isolated: having been a codec's default_dialect in every format, the SAME dialect class still means the
         # same basic document for a codec created afterwards
         n += 1
-        again = BasicEncoder(Doc, default_dialect=D).encode(value)
+        try:
+            again = BasicEncoder(Doc, default_dialect=D).encode(value)
+        except Exception as e:  # noqa: BLE001
+            again = ["exc", type(e).__name__, str(e)[:160]]
         if again != basic:
             rep.violation("codec-dialect-option", {"format": "basic (after the format codecs)", "option": oname, "expected": _j(basic), "actual": _j(again),
                                                    "replay_module": "harness.checks.c13_formats"})
